@@ -116,7 +116,10 @@ Definition external_access_name (access : option Z) : text :=
 Record ureq := mkReq { q_service : Z; q_path : bytes; q_data : bytes }.
 (* what the response object of the driver exposes: bool(response) as computed by its class
    (packets/ethernetip.py, Model/Reply.v), service_status, data = raw[50:] *)
-Record urep := mkRep { p_valid : bool; p_status : Z; p_data : bytes }.
+(* [p_error_raises]: evaluating response.error raises (generic_message always evaluates it; for an
+   invalid response it reads the extended-status size, which a frame cut right after the status
+   byte does not have: packets/util.get_extended_status, Model/Reply.error) *)
+Record urep := mkRep { p_valid : bool; p_status : Z; p_data : bytes; p_error_raises : bool }.
 
 (* <int type>.encode(v): DataError outside the range *)
 Definition enc_u (w : nat) (v : Z) : res bytes :=
@@ -535,7 +538,7 @@ Section Upload.
             match rp with
             | None => (s', u, Failed ResponseError)
             | Some r =>
-                if negb (p_valid r) then (s', u, Failed ResponseError) else
+                if p_error_raises r || negb (p_valid r) then (s', u, Failed ResponseError) else
                 match parse_structure_makeup (p_data r) with
                 | Err _ => (s', u, Failed ResponseError)
                 | Ok a => (s', set_structs (dict_set Z.eqb (u_structs u) tid a) u, Done a)
@@ -558,7 +561,8 @@ Section Upload.
             match rp with
             | None => (s', Failed ResponseError)
             | Some r =>
-                if negb ((p_status r =? Consts.SUCCESS) || (p_status r =? Consts.INSUFFICIENT_PACKETS))
+                if p_error_raises r then (s', Failed ResponseError)
+                else if negb ((p_status r =? Consts.SUCCESS) || (p_status r =? Consts.INSUFFICIENT_PACKETS))
                 then (s', Failed ResponseError)
                 else
                   let raw := template_raw ++ p_data r in
